@@ -2,6 +2,7 @@ package main
 
 import (
 	"fmt"
+	"go/token"
 	"strings"
 
 	"golang.org/x/tools/go/ssa"
@@ -152,6 +153,16 @@ func reachesInstr(fn *ssa.Function, pred func(ssa.Instruction) bool, seen map[*s
 					found, where = true, funcName(f)+" -> "+w
 				}
 			}
+			// a function-typed parameter (or a variable captured from one) that is called here: whatever the callers hand in
+			if cc := callCommon(in); cc != nil && !cc.IsInvoke() && cc.StaticCallee() == nil {
+				if _, isB := cc.Value.(*ssa.Builtin); !isB {
+					for _, tgt := range funcValuesOf(cc.Value, 0, map[ssa.Value]bool{}) {
+						if ok, w := reachesInstr(tgt, pred, seen, skip); ok {
+							found, where = true, funcName(f)+" -> (function argument) "+w
+						}
+					}
+				}
+			}
 			// bound methods handed over (c.evictNode)
 			if mc, ok := in.(*ssa.MakeClosure); ok {
 				if bm := boundMethod(mc); bm != nil {
@@ -168,6 +179,7 @@ func reachesInstr(fn *ssa.Function, pred func(ssa.Instruction) bool, seen map[*s
 func ruleC02LockOrder(cx *Ctx) {
 	const rule = "C02.lockorder"
 	cx.R.Rule(rule, 3, "lock order eviction lock -> bucket lock -> in-flight bucket lock is acyclic: nothing reachable from a table computation takes the eviction lock, waits on a load record or dispatches a loader; in-flight table computations never reach the main table; wait() and loader dispatch never run with the eviction lock possibly held")
+	lockOrderProg = cx.P
 	hmf := cx.needField(rule, "", "cache", "hashmap")
 	callsF := cx.needField(rule, "", "group", "calls")
 	mu := cx.needField(rule, "", "cache", "evictionMutex")
@@ -303,4 +315,101 @@ func addressTakenElsewhere(cx *Ctx, m *ssa.Function, site ssa.Instruction) bool 
 		})
 	}
 	return other
+}
+
+// lockOrderProg: the program whose call sites resolve function-typed parameters (set by the rules that use reachesInstr).
+var lockOrderProg *Program
+
+// funcValuesOf: the module functions a function-typed value may denote, resolved through closures, bound methods, local
+// cells, captured variables and - for a parameter - the arguments at every call site of the enclosing function.
+func funcValuesOf(v ssa.Value, depth int, seen map[ssa.Value]bool) []*ssa.Function {
+	if v == nil || seen[v] || depth > 6 {
+		return nil
+	}
+	seen[v] = true
+	var out []*ssa.Function
+	add := func(fs ...*ssa.Function) {
+		for _, f := range fs {
+			if f != nil {
+				out = append(out, f)
+			}
+		}
+	}
+	switch x := v.(type) {
+	case *ssa.Function:
+		add(x)
+	case *ssa.MakeClosure:
+		if bm := boundMethod(x); bm != nil {
+			add(bm)
+		} else {
+			add(closureOf(x))
+		}
+	case *ssa.ChangeType:
+		add(funcValuesOf(x.X, depth, seen)...)
+	case *ssa.Phi:
+		for _, e := range x.Edges {
+			add(funcValuesOf(e, depth, seen)...)
+		}
+	case *ssa.UnOp:
+		if x.Op == token.MUL {
+			switch a := x.X.(type) {
+			case *ssa.Alloc:
+				for _, u := range *a.Referrers() {
+					if st, ok := u.(*ssa.Store); ok && st.Addr == ssa.Value(a) {
+						add(funcValuesOf(st.Val, depth, seen)...)
+					}
+				}
+			case *ssa.FreeVar:
+				add(funcValuesOf(a, depth, seen)...)
+			}
+		}
+	case *ssa.FreeVar:
+		fn := x.Parent()
+		idx := -1
+		for i, q := range fn.FreeVars {
+			if q == x {
+				idx = i
+			}
+		}
+		if p := fn.Parent(); p != nil && idx >= 0 {
+			withClosures(p, func(g *ssa.Function) {
+				allInstrs(g, func(in ssa.Instruction) {
+					if mc, ok := in.(*ssa.MakeClosure); ok && mc.Fn == ssa.Value(fn) && idx < len(mc.Bindings) {
+						b := mc.Bindings[idx]
+						if al, isA := b.(*ssa.Alloc); isA {
+							for _, u := range *al.Referrers() {
+								if st, ok := u.(*ssa.Store); ok && st.Addr == ssa.Value(al) {
+									add(funcValuesOf(st.Val, depth+1, seen)...)
+								}
+							}
+						} else {
+							add(funcValuesOf(b, depth+1, seen)...)
+						}
+					}
+				})
+			})
+		}
+	case *ssa.Parameter:
+		g := x.Parent()
+		idx := -1
+		for i, q := range g.Params {
+			if q == x {
+				idx = i
+			}
+		}
+		if lockOrderProg == nil || idx < 0 {
+			return nil
+		}
+		for _, f := range lockOrderProg.ModuleFuncs() {
+			allInstrs(f, func(in ssa.Instruction) {
+				if c := calleeOf(in); c != nil && c == origin(g) {
+					cc := callCommon(in)
+					if idx < len(cc.Args) {
+						add(funcValuesOf(cc.Args[idx], depth+1, seen)...)
+					}
+				}
+			})
+		}
+	}
+	return out
 }
